@@ -491,7 +491,7 @@ func c14run(r *ev.Run) {
 		// field lists the name queries treat specially: an explicit time column in every position, repeated names,
 		// tag arguments of top(), a target without a database
 		"SELECT time AS ts, v, host FROM m", "SELECT time, v FROM m", "SELECT v, time, w FROM m", "SELECT v, time FROM m", "SELECT time, time AS t, v, time FROM m",
-		"SELECT v, v, v_1, v AS v_1 FROM m", "SELECT count(DISTINCT v), mean(DISTINCT v) + 1, count(distinct(v)) FROM m", "SELECT \"my func\"(v), \"select\"(v, 1) FROM m", "SELECT top(v, host, region, 2), host FROM m", "SELECT mean(v) INTO out FROM db0..m, m2", "SELECT v INTO db1.rp.:MEASUREMENT FROM db0..m",
+		"SELECT v, v, v_1, v AS v_1 FROM m", "SELECT v FROM /^disk\\/sda[0-9]$/, (SELECT v FROM /a\\/b/) WHERE h =~ /x\\/y/", "SELECT v FROM db1.rp.mem, db0.rp.cpu, (SELECT v FROM db2..m), db0..a", "SELECT count(DISTINCT v), mean(DISTINCT v) + 1, count(distinct(v)) FROM m", "SELECT \"my func\"(v), \"select\"(v, 1) FROM m", "SELECT top(v, host, region, 2), host FROM m", "SELECT mean(v) INTO out FROM db0..m, m2", "SELECT v INTO db1.rp.:MEASUREMENT FROM db0..m",
 	} {
 		if _, err := influxql.ParseStatement(t); err == nil {
 			if _, ok := roots[t]; !ok {
